@@ -876,3 +876,110 @@ def rule_key_not_truth_tested(ctx, rep, rid: str, only=None) -> None:
                 else:
                     rep.ok(rid, key)
     rep.ok(rid, "none-or-key-variables", {"examined": n})
+
+
+# ---- NaN answers "no" to every ordered comparison ---------------------------------------------------------------
+def rule_nan_takes_no_arm(ctx, rep, rid: str) -> None:
+    """`x > 0` and `x < 0` are both false for NaN, so a two-way decision made with one of them sends NaN down the
+    `else` arm.  Where the arms of such a decision yield different constants (an infinity of either sign, a zero,
+    +-1), NaN must have been dealt with before: the arithmetic of NaN is NaN."""
+    rep.rule(rid, "in the arithmetic handlers and the numeric helpers, a decision between constant results that is made by an ordered comparison of a converted operand is reached only when NaN has been excluded for that operand (x != x / isnan tested before, or an enclosing condition that NaN fails): otherwise NaN silently takes the else arm (NaN / 0 became an infinity)", floor=2)
+    from .implicit import _CTX, _excluded, _env_cache, NUM, RAW, UNK
+
+    _CTX[:] = [ctx]
+    df, chain = ctx.facts.vm_dispatcher()
+    scopes: List[Tuple[Func, List[ast.stmt], str]] = []
+    for names, body, ifnode in chain.branches:
+        if any(x in ("ADD", "SUB", "MUL", "DIV", "MOD", "POW", "NEG", "INC", "DEC", "EXP") for x in names):
+            scopes.append((df, body, "/".join(names)))
+    for f in ctx.tree.funcs:
+        if isinstance(f.node, ast.Lambda):
+            continue
+        if (f.module.name == "values" and f.name in ("js_pow", "js_number", "to_integer")) or (f.module.name == "context" and f.parent is not None and "math" in f.parent.name.lower()):
+            scopes.append((f, f.body(), f.name))
+    n = 0
+    for f, body, label in scopes:
+        env = _env_cache(ctx, f)
+        for st in body:
+            for d in ast.walk(st):
+                if not isinstance(d, (ast.If, ast.IfExp)):
+                    continue
+                cmps = [c for c in ast.walk(d.test) if isinstance(c, ast.Compare) and len(c.ops) == 1 and isinstance(c.ops[0], (ast.Lt, ast.LtE, ast.Gt, ast.GtE)) and isinstance(c.left, ast.Name) and isinstance(c.comparators[0], ast.Constant) and isinstance(c.comparators[0].value, (int, float))]
+                if not cmps:
+                    continue
+                # do the arms yield different constants?
+                def consts(arm) -> Set[str]:
+                    out: Set[str] = set()
+                    nodes = arm if isinstance(arm, list) else [arm]
+                    for a in nodes:
+                        for x in ast.walk(a):
+                            v = None
+                            if isinstance(x, ast.Return) and x.value is not None:
+                                v = x.value
+                            elif isinstance(x, ast.Call) and norm(x.func) == "self.stack.append" and x.args:
+                                v = x.args[0]
+                            elif not isinstance(arm, list) and x is a:
+                                v = x
+                            if v is not None and (isinstance(v, ast.Constant) or (isinstance(v, ast.Call) and norm(v.func) == "float" and v.args and isinstance(v.args[0], ast.Constant)) or (isinstance(v, ast.UnaryOp) and isinstance(v.operand, (ast.Constant, ast.Attribute))) or (isinstance(v, ast.Attribute) and norm(v) in ("math.inf", "math.nan"))):
+                                out.add(norm(v))
+                    return out
+
+                ca, cb = consts(d.body), consts(d.orelse)
+                if not ca or not cb or ca == cb:
+                    continue
+                if all("nan" in x.lower() for x in ca | cb):
+                    continue
+                for c in cmps:
+                    k = env.kind(c.left)
+                    if k not in (NUM, RAW):
+                        continue
+                    n += 1
+                    key = f"{f.qual}:{label}:{short(c, 30)}@{d.lineno}"
+                    ex = _excluded(c, c.left, f)
+                    if "nan" in ex:
+                        rep.ok(rid, key)
+                    else:
+                        rep.bad(rid, key, f"{f.qual} ({label}) decides between {sorted(ca)} and {sorted(cb)} with `{short(c, 30)}` while `{c.left.id}` may still be NaN (no x != x / isnan test reaches this point false): NaN answers no and takes the else arm, so the result is a constant where it has to be NaN", f"{f.module.rel}:{d.lineno}")
+    rep.analysed["nan_decisions"] = n
+    if n < 2:
+        raise AnalysisError(f"{rid}: only {n} sign decisions on converted operands found")
+
+
+# ---- int() of a float zero forgets its sign ---------------------------------------------------------------------
+def rule_zero_sign_survives_int(ctx, rep, rid: str) -> None:
+    """The engine holds whole Numbers as host ints, which have no negative zero.  A numeric helper that turns a float
+    result into an int (to keep it exact and printable) has to leave a zero result alone: (-0) ** 3, (-1e-200) ** 3
+    and '-0' are -0, and 1/x tells."""
+    rep.rule(rid, "a numeric helper of the value layer that returns int(v) for a float v does so only where a zero v was dealt with before (a test of v == 0 / v != 0 / copysign on the way, or an earlier exit for zero): the sign of a zero result is not lost in the int representation", floor=1)
+    from ..util import known_conditions
+
+    n = 0
+    for f in ctx.tree.funcs:
+        if isinstance(f.node, ast.Lambda) or f.module.name != "values" or f.is_method:
+            continue
+        rt = norm(f.node.returns) if getattr(f.node, "returns", None) is not None else ""
+        if "float" not in rt or "int" not in rt:
+            continue
+        floats = {t.id for a in f.own_nodes() if isinstance(a, ast.Assign) and isinstance(a.value, ast.Call) and (norm(a.value.func) == "float" or norm(a.value.func).startswith("math.")) for t in a.targets if isinstance(t, ast.Name)}
+        for r in f.own_nodes():
+            if not (isinstance(r, ast.Return) and r.value is not None):
+                continue
+            ints = [c for c in ast.walk(r.value) if isinstance(c, ast.Call) and isinstance(c.func, ast.Name) and c.func.id == "int" and len(c.args) == 1 and isinstance(c.args[0], ast.Name) and c.args[0].id in floats]
+            for c in ints:
+                v = c.args[0].id
+                n += 1
+                key = f"{f.qual}:return int({v})@{r.lineno}"
+                conds = list(known_conditions(r, f.node))
+                p_ = getattr(c, "_parent", None)
+                while p_ is not None and p_ is not r:
+                    if isinstance(p_, ast.IfExp):
+                        conds.append((p_.test, True))
+                    p_ = getattr(p_, "_parent", None)
+                zero_seen = any((f"{v} == 0" in norm(t) or f"{v} != 0" in norm(t) or ("copysign" in norm(t) and v in norm(t)) or f"abs({v}) >= 1" in norm(t)) for t, pol in conds)
+                if zero_seen:
+                    rep.ok(rid, key)
+                else:
+                    rep.bad(rid, key, f"{f.qual} returns int({v}) for the float `{v}` without having looked at a zero: -0.0 becomes the int 0, so the sign of a zero result is lost ((-0) ** 3 and (-1e-200) ** 3 are -0 in ECMAScript; 1/x gives -Infinity)", f"{f.module.rel}:{r.lineno}")
+    rep.analysed["int_of_float_returns"] = n
+    if n < 1:
+        raise AnalysisError(f"{rid}: no int(float) return found in the value layer")
